@@ -12,7 +12,7 @@ other=$(git status --porcelain | grep -v verif_contracts.go | head -3)
 [ -n "$other" ] && echo "WARNING: other uncommitted changes in /repo: $other"
 cd /verif
 python3 tools/mkmanifest.py >/dev/null
-python3 - <<'E'
+python3-vt - <<'E'
 import json, jsonschema
 jsonschema.validate(json.load(open('/verif/MANIFEST.json')), json.load(open('/root/.vp/MANIFEST.schema.json')))
 print("manifest valid")
